@@ -18,7 +18,7 @@ FAIL = {
     'C12': ('panic',),
     'C19': ('member', 'panic'),
     'C14': ('nodes', 'edges', 'readback', 'graph', 'panic'),
-    'C13': ('history', 'handle', 'sharing', 'result', 'no-result'),
+    'C13': ('history', 'handle', 'sharing', 'result', 'no-result', 'shape'),
 }
 
 BDD_RULE = {
